@@ -156,6 +156,13 @@ def run(ctx, prop):
     hist["raw_rejected"] = 0
     hist["raw_accepted"] = 0
     for origin, case in work:
+        # methods taking an object-bearing struct of <= 16 bytes by value make the generated Rust
+        # module fail to compile (finding of C01/C11, nothing to do with layout): the layout
+        # probes need the struct definitions only
+        for f_ in case["files"]:
+            for n_ in f_["nodes"]:
+                if n_["k"] == "interface":
+                    n_["members"] = [m_ for m_ in n_["members"] if m_["k"] != "method" or not F.CLASSIFIERS["smallObjStruct"](case, m_)]
         structs = [x["name"] for x in case["files"][0]["nodes"] if x["k"] == "struct"]
         if not structs:
             continue
